@@ -2689,6 +2689,10 @@ def run(ctx: Ctx):
     # seen on every run, so a broken correspondence is followed up here
     if ctx.disagreements and not new_failures(ctx):
         search(ctx)
+    # one model class under two location-bound layouts in one retort (extra policy, renamed key): each location follows its own
+    from harness.props import c05
+    c05.two_location_suite(ctx, ctx.budget(60, 1000))
+
 
 
 def oracle_program(ctx: Ctx, real: Real, prog, n_combo=4):
